@@ -38,6 +38,14 @@ var ModSeeds = []string{
 	"module example.com/m // s0\n\n// before go\ngo 1.20 // s1\n\n// before block\nrequire ( // on lparen\n\t// b1\n\ta.com/x v1.0.0 // s2\n) // on rparen\n\n// trailing comment\n",
 }
 
+// ModSeedsTypedOnly are further go.mod seeds for the typed-structure-versus-file check (C15) only: a
+// retract block that carries a comment of its own, which is the rationale of the lines that have none.
+// The set/map model of C08 does not define how a block comment is inherited, so C08 leaves them out.
+var ModSeedsTypedOnly = []string{
+	"module example.com/m\n\ngo 1.20\n\n// all bad\nretract (\n\tv1.0.0 // own\n\tv1.1.0\n)\n",
+	"module example.com/m\n\n// published by mistake\nretract (\n\t[v1.0.0, v1.1.0]\n\tv1.3.0\n)\n\nretract v1.4.0 // s1\n",
+}
+
 // WorkSeeds are the starting go.work files.
 var WorkSeeds = []string{
 	"go 1.20\n",
